@@ -2363,8 +2363,14 @@ class ProvDocument(ProvBundle):
 
         :return: :py:class:`ProvDocument`
         """
-        document = ProvDocument(self._unified_records())
-        document._namespaces = self._namespaces
+        document = ProvDocument(
+            namespaces=self._namespaces.get_registered_namespaces()
+        )
+        default_ns = self._namespaces.get_default_namespace()
+        if default_ns is not None:
+            document.set_default_namespace(default_ns.uri)
+        for record in self._unified_records():
+            document.add_record(record)
         for bundle in self.bundles:
             unified_bundle = bundle.unified()
             document.add_bundle(unified_bundle)
